@@ -446,6 +446,10 @@ class System:
                 acc.violation('propagation', dict(case, derive=name), 'history %s: second operand carries inaccuracy but %s does not'
                               % (case['history'], name), {'part': 'c', 'derive': name})
             acc.outcome('derived_from_second')
+            if flags(x) != before or flags(w) != (False, False, True):
+                acc.violation('operand_mutated', dict(case, derive=name), 'history %s: %s changed the flags of an operand: x %s -> %s, w %s'
+                              % (case['history'], name, before, flags(x), flags(w)), {'part': 'c', 'derive': name, 'aspect': 'operand_flags'})
+                before = flags(x)
         # the same through explicit destinations: out= (function form), numpy out=, config.op_out, out_like=
         shape = np.shape(x.val)
 
@@ -468,6 +472,10 @@ class System:
                 acc.violation('propagation', dict(case, derive=name), 'history %s: an operand carries inaccuracy but the result of %s does not'
                               % (case['history'], name), {'part': 'c', 'derive': name})
             acc.outcome('derived_via_out')
+            if flags(x) != before or flags(w) != (False, False, True) or flags(y) != (False, False, False):
+                acc.violation('operand_mutated', dict(case, derive=name), 'history %s: %s changed the flags of an operand: x %s -> %s, w %s, y %s'
+                              % (case['history'], name, before, flags(x), flags(w), flags(y)), {'part': 'c', 'derive': name, 'aspect': 'operand_flags'})
+                before = flags(x)
 
 
 # ------------------------------------------------------------------------------------------ driver
